@@ -102,8 +102,8 @@ def main():
         if pid == "C01":
             text += " The CSR row-pointer computation of MatrixRelationshipSet.__init__ is re-translated on every run (translate/py2lean_arrow.py → LK/Generated/RowPtrsC01.lean) and proved equal to the model's rowPtrs (rowPtrsT_eq)."
         if pid == "C09":
-            text += (" _sim_row (the similarity row of the item-item model, with its call site in _sim_block) is re-translated statement by statement on every run (translate/py2lean_sim.py → LK/Generated/SimC09.lean, "
-                     "torch operations in LK/Model/TorchOps.lean) and proved equal to the model's simRowTrunc (simRowT_eq).")
+            text += (" _sim_row, _sim_block and _sim_blocks (the similarity rows of the item-item model and their assembly into a CSR tensor block by block) are re-translated on every run (translate/py2lean_sim.py → LK/Generated/SimC09.lean, "
+                     "torch operations in LK/Model/TorchOps.lean) and proved to store the model's simRowTrunc for every item, whatever the block size (simRowT_eq, simBlocksT_eq, simBlocksT_row).")
             tech += " + per-run translation of the similarity-row kernel proved equal to the model"
         if pid == "C19":
             text += " The linear transform of StochasticTopNRanker is re-translated on every run (translate/py2lean_imp.py → LK/Generated/ImpC19.lean) and proved equal to the model's linearWeights."
